@@ -10,60 +10,95 @@ CONSTANTS
   AcrhOK <- AcrhOKElems
   AcrhEcho <- AcrhEchoElems
   CheckPairs = %(pairs)s
+  DumpSems = %(dumpsems)s
 INVARIANTS %(invs)s
+CONSTRAINT DumpSem
 CHECK_DEADLOCK FALSE
 """
+
+
+def _report(c, trace, bad):
+    evs = read_ndjson(trace)
+    for idx in bad[:20]:
+        e = evs[idx - 1]
+        j = idx - 1
+        while evs[j]["ev"] != "Config":
+            j -= 1
+        c.violation("browser verdict differs from what the configuration permits: origin %s method %s headers %s include=%s pna=%s debug=%s pert=%s" % (
+            e["origin"]["txt"], e["method"], e["hdrs"], e["include"], e["pna"], e["dbg"], e["pert"]),
+            {"config": evs[j]["cfg"], "origin": e["origin"]["txt"], "method": e["method"], "hdrs": e["hdrs"],
+             "include": e["include"], "pna": e["pna"], "debug": e["dbg"], "acrh": e["acrh"], "pre": e["pre"], "act": e["act"]})
 
 
 def check(c):
     thorough = c.tier == "thorough"
     c.build_driver()
-    # ---- M: the model of the request-handling function against the Fetch algorithms and Permits
-    c.model_check("CorsMC", CORS_CFG % dict(bug="none", pairs="FALSE", invs="BrowserVerdictIsMeaning"), tag="CorsMC_C02")
-    for bug in ("acamStarCred", "dropAuth"):
-        c.negative_twin("CorsMC", CORS_CFG % dict(bug=bug, pairs="FALSE", invs="BrowserVerdictIsMeaning"),
-                        tag="CorsMC_neg_" + bug, expect=["BrowserVerdictIsMeaning"])
-    # ---- T: real responses, judged by TLC running the Fetch algorithms on them
-    total = 400000 if thorough else 30000
-    shard = 40000
-    done = k = 0
-    permitted = 0
-    while done < total:
-        n = min(shard, total - done)
+    sems = c.path("sems.ndjson")
+    acc = {"permitted": 0, "done": 0}
+
+    def model():
+        # M: the model of the request-handling function against the Fetch algorithms and Permits; dumps every semantic configuration
+        c.model_check("CorsMC", CORS_CFG % dict(bug="none", pairs="FALSE", invs="BrowserVerdictIsMeaning", dumpsems="TRUE"),
+                      tag="CorsMC_C02", env={"OUT_FILE": sems}, workers=8)
+
+    def twins():
+        for bug in ("acamStarCred", "dropAuth"):
+            c.negative_twin("CorsMC", CORS_CFG % dict(bug=bug, pairs="FALSE", invs="BrowserVerdictIsMeaning", dumpsems="FALSE"),
+                            tag="CorsMC_neg_" + bug, expect=["BrowserVerdictIsMeaning"], workers=4)
+
+    def rand_shard(k, n):
+        # T: seeded real configurations / intents; the Fetch algorithms run in TLC on the recorded real responses
         trace = c.path("c02_%d.ndjson" % k)
         summ = c.path("c02_%d.json" % k)
         c.run_driver(["c02", "-trace", trace, "-cells", str(n), "-out", summ], env={"VERIF_SEED": str(c.seed * 1000 + k)})
         s = json.load(open(summ))
         bad, res = c.validate_trace("TraceBrowser", "TraceBrowser.cfg", trace, tag="TraceBrowser%d" % k)
-        permitted += res["permitted"]
         if bad:
-            evs = read_ndjson(trace)
-            for idx in bad[:20]:
-                e = evs[idx - 1]
-                j = idx - 1
-                while evs[j]["ev"] != "Config":
-                    j -= 1
-                c.violation("browser verdict differs from what the configuration permits: origin %s method %s headers %s include=%s pna=%s debug=%s pert=%s" % (
-                    e["origin"]["txt"], e["method"], e["hdrs"], e["include"], e["pna"], e["dbg"], e["pert"]),
-                    {"config": evs[j]["cfg"], "origin": e["origin"]["txt"], "method": e["method"], "hdrs": e["hdrs"],
-                     "include": e["include"], "pna": e["pna"], "debug": e["dbg"], "acrh": e["acrh"], "pre": e["pre"], "act": e["act"]})
-        c.cov["evaluations"] += s["cells"]
-        c.cov["distinct_nontrivial"] += s["nontrivial"]
-        c.cov["traces_validated_against_impl"] += s["configs"]
-        if k == 0:
-            c.cov["samples"] += s["samples"][:2]
-        if s["rejected"]:
-            c.drift.append("%d by-construction-valid configurations were rejected" % s["rejected"])
-        done += s["cells"]
-        k += 1
-    if permitted == 0 or permitted == done:
-        raise Infra("vacuous: %d of %d cells permitted" % (permitted, done))
-    c.cov["permitted_cells"] = permitted
-    c.cov["rule"] = ("seeded semantic configurations (credentialed / PNA mode / allow-all, discrete and wildcard origin patterns / "
+            _report(c, trace, bad)
+        with c.lock:
+            acc["permitted"] += res["permitted"]
+            acc["done"] += s["cells"]
+            c.cov["evaluations"] += s["cells"]
+            c.cov["distinct_nontrivial"] += s["nontrivial"]
+            c.cov["traces_validated_against_impl"] += s["configs"]
+            if k == 0:
+                c.cov["samples"] += s["samples"][:2]
+            if s["rejected"]:
+                c.drift.append("%d by-construction-valid configurations were rejected" % s["rejected"])
+
+    def gen_shard(k, nsh, stride):
+        # G: every semantic configuration of CorsMC x its whole intent universe x perturbations x debug
+        trace = c.path("c02gen_%d.ndjson" % k)
+        summ = c.path("c02gen_%d.json" % k)
+        c.run_driver(["c02gen", "-cases", sems, "-trace", trace, "-out", summ, "-stride", str(stride), "-shard", str(k), "-nshards", str(nsh)],
+                     timeout=3000)
+        s = json.load(open(summ))
+        bad, res = c.validate_trace("TraceBrowser", "TraceBrowser.cfg", trace, tag="TraceBrowserGen%d" % k, timeout=3000)
+        if bad:
+            _report(c, trace, bad)
+        with c.lock:
+            acc["permitted"] += res["permitted"]
+            acc["done"] += s["cells"]
+            c.cov["evaluations"] += s["cells"]
+            c.cov["distinct_nontrivial"] += s["nontrivial"]
+            c.cov["traces_validated_against_impl"] += s["configs"]
+            c.cov["tlc_enumerated_configs_replayed"] = c.cov.get("tlc_enumerated_configs_replayed", 0) + s["configs"]
+
+    total = 400000 if thorough else 30000
+    nr = (total + 39999) // 40000
+    c.parallel([model, twins] + [lambda k=k: rand_shard(k, min(40000, total - 40000 * k)) for k in range(nr)], max_workers=6)
+    nsh, stride = (12, 3) if thorough else (2, 70)
+    c.parallel([lambda k=k: gen_shard(k, nsh, stride) for k in range(nsh)], max_workers=6)
+    if acc["permitted"] == 0 or acc["permitted"] == acc["done"]:
+        raise Infra("vacuous: %d of %d cells permitted" % (acc["permitted"], acc["done"]))
+    c.cov["permitted_cells"] = acc["permitted"]
+    c.cov["rule"] = ("T: seeded semantic configurations (credentialed / PNA mode / allow-all, discrete and wildcard origin patterns / "
                      "methods incl. * and normalisable spellings / request headers incl. * with or without Authorization) spelled "
                      "as cors.Config in randomised order, case and multiplicity x browser intents (allowed and near-miss origins, "
-                     "methods, header subsets, credentials mode, PNA) x debug on/off x tolerated ACRH perturbations; the real "
-                     "preflight and actual responses are judged by Browser!VerdictOn against Browser!Permits in TLC; "
-                     "non-trivial = intents with >= 2 unsafe header names or a PNA target")
+                     "methods, header subsets, credentials mode, PNA) x debug on/off x tolerated ACRH perturbations. G: every %s "
+                     "semantic configuration enumerated by TLC from CorsMC.tla x the WHOLE abstract intent universe (2 origins x 6 methods "
+                     "x 8 header subsets x credentials mode x PNA) x 5 perturbations x debug. The real preflight and actual responses are "
+                     "judged by Browser!VerdictOn against Browser!Permits in TLC; non-trivial = intents with >= 2 unsafe header names or a "
+                     "PNA target (T) / half of the cells (G)") % ("3rd" if thorough else "70th")
     c.assumptions += ["the Go projection only tokenises ACAM/ACAH (comma split, OWS trim, ACAH lower-cased)",
                       "browser behaviour is the Fetch standard's CORS-preflight fetch + CORS check + PNA draft's Allow-Private-Network check"]
